@@ -137,7 +137,7 @@ bt_en_decode(uint8_t *buf, size_t buf_size, bt_en_node_p *ret_data, size_t *ret_
 		/* Convert and check len. */
 		raw_size = ustr2usize(buf, (size_t)(ptm - buf));
 		ptm ++;
-		if (buf_max <= (raw_size + ptm))
+		if ((size_t)(buf_max - ptm) <= raw_size)
 			return (EBADMSG); /* Out of buff range. */
 		/* Allocate node for returning data. */
 		(*ret_data) = bt_en_alloc(BT_EN_TYPE_STR, ptm, raw_size);
@@ -188,7 +188,7 @@ bt_en_decode(uint8_t *buf, size_t buf_size, bt_en_node_p *ret_data, size_t *ret_
 			items_count ++;
 			cur_pos += buf_off;
 			/* Is we in buff range? */
-			if (buf_max < cur_pos) {
+			if (buf_max <= cur_pos) {
 				error = EBADMSG; /* Out of range. */
 				break;
 			}
@@ -246,6 +246,7 @@ bt_en_decode(uint8_t *buf, size_t buf_size, bt_en_node_p *ret_data, size_t *ret_
 			/* Key mast bee string. */
 			if (d[items_count].key->type != BT_EN_TYPE_STR) {
 				bt_en_free(d[items_count].key);
+				error = EBADMSG;
 				break;
 			}
 			cur_pos += buf_off;
@@ -259,7 +260,7 @@ bt_en_decode(uint8_t *buf, size_t buf_size, bt_en_node_p *ret_data, size_t *ret_
 			items_count ++;
 			cur_pos += buf_off;
 			/* Is we in buff range? */
-			if (buf_max < cur_pos) {
+			if (buf_max <= cur_pos) {
 				error = EBADMSG; /* Out of range. */
 				break;
 			}
